@@ -102,7 +102,7 @@ func (f cacheFront) Clear() int         { return f.c.Clear() }
 func (f cacheFront) Stats() (int, int, int, int, []string, string, int) {
 	return lru.VerifItems(f.c.ECache)
 }
-func (f cacheFront) FirstCost() int { return lru.VerifFirstCost(f.c.ECache) }
+func (f cacheFront) FirstCost() int  { return lru.VerifFirstCost(f.c.ECache) }
 func (f cacheFront) Order() []string { return lru.VerifOrder(f.c.ECache) }
 
 type ecacheFront struct{ c *lru.ECache[int, int, int] }
@@ -116,7 +116,7 @@ func (f ecacheFront) Clear() int         { return f.c.Clear() }
 func (f ecacheFront) Stats() (int, int, int, int, []string, string, int) {
 	return lru.VerifItems(f.c)
 }
-func (f ecacheFront) FirstCost() int { return lru.VerifFirstCost(f.c) }
+func (f ecacheFront) FirstCost() int  { return lru.VerifFirstCost(f.c) }
 func (f ecacheFront) Order() []string { return lru.VerifOrder(f.c) }
 
 type expFront struct {
@@ -132,7 +132,7 @@ func (f expFront) Clear() int         { return f.c.Clear() }
 func (f expFront) Stats() (int, int, int, int, []string, string, int) {
 	return lru.VerifItems(f.c.Cache.ECache)
 }
-func (f expFront) FirstCost() int { return lru.VerifFirstCost(f.c.Cache.ECache) }
+func (f expFront) FirstCost() int  { return lru.VerifFirstCost(f.c.Cache.ECache) }
 func (f expFront) Order() []string { return lru.VerifOrder(f.c.Cache.ECache) }
 
 // New builds a fresh cache of the given kind and capacity.
